@@ -22,6 +22,7 @@ def run(ctx):
         for c in cfgs:
             cases.append(dict(exe=ex_list[c], script=sc, replay_args=['ordered', 'small'], tag=('list', sc.split('\n')[0], c)))
     res = runner.run_cases(cases, rexe)
+    exec_cov = poolrun.exec_lockstep(ctx, res, rexe)
     ops = 0; div = 0; per = {}
     for r in res:
         kind, tgt, c = r['case']['tag']; per[kind] = per.get(kind, 0) + 1
@@ -49,7 +50,7 @@ def run(ctx):
     ctx.tie_broken = ctx.tie_broken[:6]
     ctx.cov.update(dict(
         tie=dict(kind='pools/collections: Spec acceptance (ranges handed to the lists must be disjoint and inside held blocks, results must be free nodes); stacks and iteration allocators: Exec lock-step; the real detail::small_free_memory_list driven directly in lock-step with SmallList (chunk order, every free chain, alloc and dealloc cursor, every address returned); live allocations carry content patterns verified at release and in sweeps; memory returned upstream is checked for later writes',
-                 configs=cfgs, histories_by_kind=per, histories=len(cases), operations=ops, divergences=div),
+                 configs=cfgs, histories_by_kind=per, histories=len(cases), operations=ops, exec_pool=exec_cov, divergences=div),
         evaluations=len(cases), distinct_nontrivial=len(set(c['script'] for c in cases)),
         rule='seeded histories on memory_pool<node|array|small>, memory_pool_collection (identity/log2), memory_stack, iteration_allocator<1..5> over growing/fixed sources, object placed below and above its memory, with upstream failures; distinct = distinct scripts',
         not_covered_by_this_check=['static_allocator, temporary_allocator, low-level allocators (see C11/C14/C17 for their runs)', 'virtual/static block sources under pools (C05 runs them under arenas)']))
